@@ -35,6 +35,8 @@ var exoticLeaves = []string{
 	"int", "string", "[]byte", "map[string]any", "Enum", "*Enum", "map[Enum]Enum", "fmt.Stringer", "time.Time", "*time.Time", "[]error",
 	"map[string]error", "func(R) (R, error)", "chan R", "struct{}", "map[string]struct{}", "NI", "**int", "***R", "[]*[]*int", "CmpIface",
 	"struct{ error }", "struct{ E error }", "sync.Mutex", "*sync.Mutex", "atomic.Int64", "[2][2]int", "map[[2]int][]R",
+	// named types that refer to themselves without a struct in between
+	"SL", "SL2", "SM", "SM2", "SP", "SP2", "SA", "SLP", "SLP2", "SF", "SC", "SI", "MA", "MB", "GR[int]", "struct{ L SL; M SM }",
 }
 
 const exoticPrelude = `
@@ -50,6 +52,21 @@ type NI int
 type Enum int
 const ( EnumA Enum = iota; EnumB; EnumC )
 type CmpIface interface{ comparable }
+type SL []SL
+type SL2 []SL2
+type SM map[string]SM
+type SM2 map[string]SM2
+type SP *SP
+type SP2 *SP2
+type SA [2]*SA
+type SLP []*SLP
+type SLP2 []*SLP2
+type SF func() SF
+type SC chan SC
+type SI interface{ M() SI }
+type MA []MB
+type MB map[string]MA
+type GR[T any] []GR[T]
 `
 
 func fixExotic(t string) string {
